@@ -47,6 +47,9 @@ def run_one(sid, in_repo, tier):
     meta = json.load(open(os.path.join(sd, 'meta.json')))
     props = meta['property'] if isinstance(meta['property'], list) else [meta['property']]
     patch = os.path.join(sd, 'patch.diff')
+    if os.path.exists(os.path.join(sd, 'patch.rebased.diff')):
+        # the same change on the current tree (a later repair touched the same lines)
+        patch = os.path.join(sd, 'patch.rebased.diff')
     res = {'id': sid, 'property': props, 'tier': tier, 'checks': {}}
     scratch = None
     try:
